@@ -37,7 +37,7 @@ def plan(tier, seed):
                            obligation="W-lemma decode %s %d-bit %s %s (see C01)" % (T, bd, "full" if full else "limited", Y.MC_NAME[Y.MC_STD[mi]]),
                            sym="codes: all triples", covers=["mid-range output explored"]))
         txt = add_we(txt, hs, wcfgs)
-        for row in range(3):
+        for row in (range(3) if tier == "thorough" else []):   # quick tier: the S-lemma (5-8 min per row) is run by C01's quick check and by this check's thorough tier
             n, code = Y.s_lemma(row)
             txt += code
             hs.append(dict(name=n, family="S", timeout=1500, mem_gb=10, replay=None,
